@@ -1,5 +1,6 @@
 import QuiverModel.Core.Text.Fragment
 import QuiverModel.Lemmas.Text.Layout
+import QuiverModel.Lemmas.Text.Basic
 import QuiverModel.Lemmas.Parse.Eval
 /-
 Fragment-independent lemmas for the fragment port (used by Lemmas/Text/Fragment.lean):
@@ -75,11 +76,18 @@ def isBrk : Mode → Bool
 /-- a printed atom: not empty, no white space in it -/
 def goodAtom (s : List Char) : Bool := !s.isEmpty && s.all (fun c => !isWhitespace c)
 
+/-- a quoted atom (a string literal): between two `"`, anything but a raw line break -/
+def quotedAtom (s : List Char) : Bool :=
+  s.head? == some '"' && s.getLast? == some '"' && s.all (fun c => c != '\n' && c != '\r')
+
+/-- an atom the line passes cope with -/
+def okAtom (s : List Char) : Bool := goodAtom s || quotedAtom s
+
 /-- The pieces leave no white space before a line break or at the end; the flag says whether the
     text so far ends in an atom (or is empty). -/
 def tidyPs : Bool → List Piece → Bool
   | b, [] => b
-  | _, .atom s :: r => goodAtom s && tidyPs true r
+  | _, .atom s :: r => okAtom s && tidyPs true r
   | _, .sp :: r => tidyPs false r
   | b, .nl _ :: r => b && tidyPs false r
 
@@ -128,14 +136,55 @@ theorem all_ne_nl_of_not_ws {s : List Char} (h : s.all (fun c => !isWhitespace c
   rw [e, isWhitespace_nl] at this
   exact Bool.noConfusion this
 
+theorem okAtom_ne {s : List Char} (h : okAtom s = true) : s ≠ [] := by
+  intro e; subst e
+  simp [okAtom, goodAtom, quotedAtom] at h
+
+/-- no raw line break inside an atom -/
+theorem okAtom_clean {s : List Char} (h : okAtom s = true) :
+    s.all (fun c => c != '\n' && c != '\r') = true := by
+  simp only [okAtom, Bool.or_eq_true] at h
+  rcases h with h | h
+  · simp only [goodAtom, Bool.and_eq_true] at h
+    simp only [List.all_eq_true, Bool.not_eq_true', Bool.and_eq_true, bne_iff_ne, ne_eq] at h ⊢
+    intro c hc
+    have := h.2 c hc
+    refine ⟨?_, ?_⟩ <;> (intro e; rw [e] at this; revert this; decide)
+  · simp only [quotedAtom, Bool.and_eq_true] at h
+    exact h.2
+
+theorem okAtom_nonl {s : List Char} (h : okAtom s = true) : s.all (· ≠ '\n') = true := by
+  have := okAtom_clean h
+  simp only [List.all_eq_true, Bool.and_eq_true, bne_iff_ne, ne_eq, decide_eq_true_eq] at this ⊢
+  exact fun c hc => (this c hc).1
+
+theorem okAtom_nocr {s : List Char} (h : okAtom s = true) : '\r' ∉ s := by
+  have := okAtom_clean h
+  simp only [List.all_eq_true, Bool.and_eq_true, bne_iff_ne, ne_eq] at this
+  exact fun hm => (this _ hm).2 rfl
+
+/-- an atom ends in a non-blank character -/
+theorem okAtom_last {s : List Char} (h : okAtom s = true) :
+    ∃ init c, s = init ++ [c] ∧ isWhitespace c = false := by
+  have hne := okAtom_ne h
+  refine ⟨s.dropLast, s.getLast hne, (List.dropLast_concat_getLast hne).symm, ?_⟩
+  simp only [okAtom, Bool.or_eq_true] at h
+  rcases h with h | h
+  · simp only [goodAtom, Bool.and_eq_true] at h
+    simpa using (List.all_eq_true.mp h.2) _ (List.getLast_mem hne)
+  · simp only [quotedAtom, Bool.and_eq_true, beq_iff_eq] at h
+    rw [List.getLast?_eq_some_getLast hne] at h
+    have : s.getLast hne = '"' := Option.some.inj h.1.2
+    rw [this]; decide
+
 theorem renderPieces_ne_nil_of_tidy {r : List Piece} (h : tidyPs false r = true) : renderPieces r ≠ [] := by
   cases r with
   | nil => simp [tidyPs] at h
   | cons p r =>
     cases p with
     | atom s =>
-      simp only [tidyPs, goodAtom, Bool.and_eq_true, Bool.not_eq_true', List.isEmpty_eq_false_iff] at h
-      simp [renderPieces, Piece.render, h.1.1]
+      simp only [tidyPs, Bool.and_eq_true] at h
+      simp [renderPieces, Piece.render, okAtom_ne h.1]
     | sp => simp [renderPieces, Piece.render]
     | nl k => simp [tidyPs] at h
 
@@ -158,21 +207,15 @@ theorem strip_aux (ps : List Piece) : ∀ (b : Bool) (cur : List Char), tidyPs b
     intro b cur hb hc
     cases p with
     | atom s =>
-      simp only [tidyPs, goodAtom, Bool.and_eq_true, Bool.not_eq_true', List.isEmpty_eq_false_iff] at hb
-      obtain ⟨⟨hne, hall⟩, hr⟩ := hb
+      simp only [tidyPs, Bool.and_eq_true] at hb
+      obtain ⟨hok, hr⟩ := hb
       simp only [renderPieces, Piece.render]
-      rw [rustLinesAux_append s (all_ne_nl_of_not_ws hall), ih true (s.reverse ++ cur) hr]
+      rw [rustLinesAux_append s (okAtom_nonl hok), ih true (s.reverse ++ cur) hr]
       · simp
       · intro _
         right
-        cases hs : s.reverse with
-        | nil => exact absurd (List.reverse_eq_nil_iff.mp hs) hne
-        | cons c t =>
-          refine ⟨c, t ++ cur, by simp, ?_⟩
-          have hm : c ∈ s := by
-            have : c ∈ s.reverse := by rw [hs]; simp
-            simpa using this
-          simpa using (List.all_eq_true.mp hall) c hm
+        obtain ⟨init, c, rfl, hc⟩ := okAtom_last hok
+        exact ⟨c, init.reverse ++ cur, by simp, hc⟩
     | sp =>
       simp only [tidyPs] at hb
       simp only [renderPieces, Piece.render, List.cons_append, List.nil_append, rustLinesAux,
@@ -269,20 +312,24 @@ def linesFwd (p : List Char) : List Piece → List (List Char)
 /-- every atom is free of white space -/
 def atomsOk : List Piece → Bool
   | [] => true
-  | .atom s :: r => s.all (fun c => !isWhitespace c) && atomsOk r
+  | .atom s :: r => s.all (fun c => c != '\n' && c != '\r') && atomsOk r
   | _ :: r => atomsOk r
 
-/-- no atom contains the NUL that marks a literal placeholder -/
+/-- the NUL of a literal placeholder cannot be the first character of this atom: there is none in it,
+    or it starts with a quote -/
+def nulAtom (s : List Char) : Bool := s.all (· ≠ '\x00') || s.head? == some '"'
+
+/-- no line can start with the NUL that marks a literal placeholder -/
 def nulFree : List Piece → Bool
   | [] => true
-  | .atom s :: r => s.all (· ≠ '\x00') && nulFree r
+  | .atom s :: r => nulAtom s && nulFree r
   | _ :: r => nulFree r
 
 theorem atomsOk_of_tidy : ∀ (ps : List Piece) (b : Bool), tidyPs b ps = true → atomsOk ps = true
   | [], _, _ => rfl
   | .atom s :: r, b, h => by
-    simp only [tidyPs, goodAtom, Bool.and_eq_true] at h
-    simp [atomsOk, h.1.2, atomsOk_of_tidy r true h.2]
+    simp only [tidyPs, Bool.and_eq_true] at h
+    simp only [atomsOk, okAtom_clean h.1, atomsOk_of_tidy r true h.2, Bool.and_self]
   | .sp :: r, b, h => by
     simp only [tidyPs] at h
     simpa [atomsOk] using atomsOk_of_tidy r false h
@@ -302,14 +349,17 @@ theorem rustLinesAux_linesFwd (ps : List Piece) : ∀ (p : List Char), atomsOk p
     | atom s =>
       simp only [atomsOk, Bool.and_eq_true] at ha
       simp only [renderPieces, Piece.render, linesFwd]
-      rw [rustLinesAux_append s (all_ne_nl_of_not_ws ha.1), ← List.reverse_append]
+      have hcl := ha.1
+      simp only [List.all_eq_true, Bool.and_eq_true, bne_iff_ne, ne_eq] at hcl
+      have hnl : s.all (· ≠ '\n') = true := by
+        simp only [List.all_eq_true, decide_eq_true_eq]
+        exact fun c hc => (hcl c hc).1
+      rw [rustLinesAux_append s hnl, ← List.reverse_append]
       refine ih (p ++ s) ha.2 ?_
       intro hm
       rcases List.mem_append.mp hm with hm | hm
       · exact hp hm
-      · have := (List.all_eq_true.mp ha.1) _ hm
-        rw [isWhitespace_cr] at this
-        exact Bool.noConfusion this
+      · exact (hcl _ hm).2 rfl
     | sp =>
       simp only [atomsOk] at ha
       simp only [renderPieces, Piece.render, List.cons_append, List.nil_append, rustLinesAux,
@@ -370,6 +420,20 @@ theorem headNS_ne_nul_of_all {s : List Char} (h : s.all (· ≠ '\x00') = true) 
   have := (List.all_eq_true.mp h) _ hs
   simp at this
 
+theorem nulAtom_of_all {s : List Char} (h : s.all (· ≠ '\x00') = true) : nulAtom s = true := by
+  unfold nulAtom; rw [h]; rfl
+
+theorem headNS_ne_nul_of_nulAtom {s : List Char} (h : nulAtom s = true) : headNS s ≠ some '\x00' := by
+  simp only [nulAtom, Bool.or_eq_true, beq_iff_eq] at h
+  rcases h with h | h
+  · exact headNS_ne_nul_of_all h
+  · cases s with
+    | nil => simp at h
+    | cons c r =>
+      simp only [List.head?_cons, Option.some.injEq] at h
+      subst h
+      simp [headNS]
+
 theorem linesFwd_good (ps : List Piece) : ∀ (b : Bool) (p : List Char), tidyPs b ps = true →
     nulFree ps = true → EndsOk b p → headNS p ≠ some '\x00' → ∀ l ∈ linesFwd p ps, GoodLine l := by
   induction ps with
@@ -386,18 +450,16 @@ theorem linesFwd_good (ps : List Piece) : ∀ (b : Bool) (p : List Char), tidyPs
     intro b p hb hnf hp hn l hl
     cases x with
     | atom s =>
-      simp only [tidyPs, goodAtom, Bool.and_eq_true, Bool.not_eq_true', List.isEmpty_eq_false_iff] at hb
+      simp only [tidyPs, Bool.and_eq_true] at hb
       simp only [nulFree, Bool.and_eq_true] at hnf
       simp only [linesFwd] at hl
       refine ih true (p ++ s) hb.2 hnf.2 ?_ ?_ l hl
       · intro _
-        obtain ⟨hne, hall⟩ := hb.1
-        have hlast := List.dropLast_concat_getLast hne
-        refine ⟨p ++ s.dropLast, s.getLast hne, by rw [List.append_assoc, hlast], ?_⟩
-        simpa using (List.all_eq_true.mp hall) _ (List.getLast_mem hne)
+        obtain ⟨init, c, rfl, hc⟩ := okAtom_last hb.1
+        exact ⟨p ++ init, c, by rw [List.append_assoc], hc⟩
       · rw [headNS_append]
         split
-        · exact headNS_ne_nul_of_all hnf.1
+        · exact headNS_ne_nul_of_nulAtom hnf.1
         · exact hn
     | sp =>
       simp only [tidyPs] at hb
@@ -431,13 +493,12 @@ theorem linesFwd_snoc_nl (ps : List Piece) : ∀ (b : Bool) (p : List Char), tid
     intro b p hb hp
     cases x with
     | atom s =>
-      simp only [tidyPs, goodAtom, Bool.and_eq_true, Bool.not_eq_true', List.isEmpty_eq_false_iff] at hb
+      simp only [tidyPs, Bool.and_eq_true] at hb
       simp only [List.cons_append, linesFwd]
       refine ih true (p ++ s) hb.2 ?_
       intro _
-      obtain ⟨hne, hall⟩ := hb.1
-      refine ⟨p ++ s.dropLast, s.getLast hne, by rw [List.append_assoc, List.dropLast_concat_getLast hne], ?_⟩
-      simpa using (List.all_eq_true.mp hall) _ (List.getLast_mem hne)
+      obtain ⟨init, c, rfl, hc⟩ := okAtom_last hb.1
+      exact ⟨p ++ init, c, by rw [List.append_assoc], hc⟩
     | sp =>
       simp only [tidyPs] at hb
       simp only [List.cons_append, linesFwd]
